@@ -49,6 +49,12 @@ CHECKS = {
             "Every fixture pair, per-vendor cross products and random recombinations of fixture trees, for stub hardware and the hardware families the templates branch on, are run "
             "through _read_old_new_diff_patch / file_patch_worker / file_diff_worker and through _diff_and_patch; ordered command paths and diff entries must be equal.",
             "No reference model needed (two executions of the real code are compared). No ACL, implicit defaults off.", "4/C16"),
+    "C17": ("reference-model monitor (R1-based completion) + laws (subtree, idempotence) + invisibility of pure defaults in real diffs/patches, also through the production front end",
+            "For every hardware model with implicit rules and random trees mixing matching / nearly matching / default / unrelated rows, the real implicit.config + merge_dicts "
+            "result is compared with the reference completion and checked for t being a subtree and idempotence; pairs completed the same way go through the real _diff_and_patch "
+            "(shipped rulebooks) and neither diff entries nor leaf commands may concern a line that is a pure default on both sides; the same law is observed through "
+            "_old_new_per_device(add_implicit=True), including an empty device text.",
+            "Trusted: R1 regex-level reference; rule texts taken from annet.implicit._implicit_tree as data.", "4/C17"),
     "C18": ("invariant monitors on hardware/vendor/rulebook resolution over the whole device database (exhaustive), registration-order permutation, fresh-process differential",
             "For every one of the 168 device-database entries (model strings synthesised from the regex chain) and every vendor's canonical hardware, "
             "the run observes the hardware attribute hierarchy, the vendor chosen by fresh Registry objects under every rotation and the reversal of the "
